@@ -237,16 +237,18 @@ pub fn exec_s(h: &Hist) -> Outcome {
 pub struct Scen {
     pub cap: u16,
     pub prios: Vec<i64>,
-    pub ordered_pop_b: bool,
+    /// T only: operations of the thief B after A was filled: None = pop, Some(p) = push
+    #[serde(default)]
+    pub b_ops: Vec<Option<i64>>,
 }
 
 fn scen() -> impl Strategy<Value = Scen> {
     (
         prop_oneof![3 => 1u16..=8, 2 => 1u16..=40],
         proptest::collection::vec(qreal::prio(), 1..120),
-        any::<bool>(),
+        proptest::collection::vec(prop_oneof![3 => Just(None), 2 => qreal::prio().prop_map(Some)], 0..40),
     )
-        .prop_map(|(cap, prios, ordered_pop_b)| Scen { cap, prios, ordered_pop_b })
+        .prop_map(|(cap, prios, b_ops)| Scen { cap, prios, b_ops })
 }
 
 /// O: overflow keeps keys. One local queue, pushes beyond capacity, no pops in between.
@@ -310,42 +312,106 @@ pub fn exec_o(s: &Scen) -> Outcome {
     o
 }
 
-/// T: steals keep keys. A is filled below capacity; B pops until empty.
+/// T: steals keep keys. A is filled below capacity; then the thief B runs a generated
+/// sequence of pops and pushes (few enough that B never overflows), then drains.
+/// Oracle (the statement, applied to B): a pop on B never returns an item while an item
+/// pushed to B with a strictly smaller priority value is still waiting in B; items pushed
+/// to B with equal priority leave in push order; with no pushes at all B's drain of A is
+/// sorted by (priority, push-seq).
 pub fn exec_t(s: &Scen) -> Outcome {
     let cap = s.cap.max(1) as usize;
     let n = s.prios.len().min(cap);
-    let mut fail = None;
+    let mut fail: Option<(String, String)> = None;
+    let mut b_pushed_while_holding_stolen = false;
     let ((), _d, stranded) = qreal::with_queue(true, 2, cap, |q| {
         for (i, p) in s.prios.iter().take(n).enumerate() {
             q.lpush(0, *p, i as u32);
         }
-        let mut last: Option<(i64, u32)> = None;
-        let mut count = 0;
-        loop {
-            let got = vkit::hang::guard("T", "C04/pop/does-not-return", || serde_json::to_string(s).unwrap(), || q.lpop(1));
-            let Some(id) = got else { break };
-            count += 1;
-            let p = s.prios[id as usize];
-            if let Some((lp, lid)) = last {
-                if (p, id) < (lp, lid) {
-                    let kind = if p < lp { "not-priority-ordered" } else { "fifo-among-equals" };
-                    fail.get_or_insert((
-                        format!("C05/T/thief-drain-{kind}"),
-                        format!("thief returned item#{id} (prio {p}) after item#{lid} (prio {lp})"),
-                    ));
+        let mut own: Vec<It> = vec![]; // items pushed to B and not yet returned
+        let mut next = n as u32;
+        let mut b_pushes = 0usize;
+        let stolen_seen = std::cell::Cell::new(0usize); // items of A returned by B so far
+        let mut last_pure: Option<(i64, u32)> = None; // ordering of A's items while B never pushed
+        let mut check_pop = |got: Option<u32>, own: &mut Vec<It>, fail: &mut Option<(String, String)>, pure: bool| -> bool {
+            let Some(id) = got else { return false };
+            let (px, from_a) = if (id as usize) < n {
+                (s.prios[id as usize], true)
+            } else {
+                (own.iter().find(|i| i.id == id).map_or(0, |i| i.prio), false)
+            };
+            if from_a {
+                stolen_seen.set(stolen_seen.get() + 1);
+                if pure {
+                    if let Some((lp, lid)) = last_pure {
+                        if (px, id) < (lp, lid) {
+                            let kind = if px < lp { "not-priority-ordered" } else { "fifo-among-equals" };
+                            fail.get_or_insert((
+                                format!("C05/T/thief-drain-{kind}"),
+                                format!("thief returned item#{id} (prio {px}) after item#{lid} (prio {lp})"),
+                            ));
+                        }
+                    }
+                    last_pure = Some((px, id));
                 }
             }
-            last = Some((p, id));
+            if let Some(w) = own.iter().find(|w| w.prio < px) {
+                fail.get_or_insert((
+                    "C05/T/pop/higher-priority-item-waiting".into(),
+                    format!(
+                        "pop on B returned item#{id} (prio {px}{}) while item#{} (prio {}) pushed to B is still waiting",
+                        if from_a { ", stolen from A" } else { "" },
+                        w.id,
+                        w.prio
+                    ),
+                ));
+            }
+            if !from_a {
+                if let Some(w) = own.iter().find(|w| w.prio == px && w.seq < id) {
+                    fail.get_or_insert((
+                        "C05/T/pop/fifo-among-equals".into(),
+                        format!("pop on B returned item#{id} (prio {px}) before item#{} of the same priority pushed to B earlier", w.id),
+                    ));
+                }
+                own.retain(|i| i.id != id);
+            }
+            true
+        };
+        let mut pure = true;
+        for op in &s.b_ops {
+            match op {
+                None => {
+                    let got = vkit::hang::guard("T", "C04/pop/does-not-return", || serde_json::to_string(s).unwrap(), || q.lpop(1));
+                    let _ = check_pop(got, &mut own, &mut fail, pure);
+                }
+                Some(p) => {
+                    if b_pushes + 1 > cap / 2 {
+                        continue;
+                    }
+                    b_pushes += 1;
+                    pure = false;
+                    if stolen_seen.get() > 0 {
+                        b_pushed_while_holding_stolen = true;
+                    }
+                    let it = It { id: next, prio: *p, seq: next };
+                    next += 1;
+                    vkit::hang::guard("T", "C04/push/does-not-return", || serde_json::to_string(s).unwrap(), || q.lpush(1, *p, it.id));
+                    own.push(it);
+                }
+            }
         }
-        if count != n && fail.is_none() {
-            // not an ordering failure; the idle-queue clause belongs to C06
+        loop {
+            let got = vkit::hang::guard("T", "C04/pop/does-not-return", || serde_json::to_string(s).unwrap(), || q.lpop(1));
+            if !check_pop(got, &mut own, &mut fail, pure) {
+                break;
+            }
         }
     });
     let distinct: std::collections::BTreeSet<_> = s.prios.iter().take(n).collect();
     let mut o = Outcome::pass()
-        .nt(n >= 3 && distinct.len() >= 2)
+        .nt(n >= 3 && (distinct.len() >= 2 || b_pushed_while_holding_stolen))
         .class_if(distinct.len() < n, "has-tie")
-        .class_if(n >= 3, "3+items");
+        .class_if(n >= 3, "3+items")
+        .class_if(b_pushed_while_holding_stolen, "thief-pushes-after-a-steal");
     if let Some((a, b)) = fail {
         o.set_fail(a, b);
     }
@@ -473,7 +539,7 @@ pub fn replay(sub: &str, case: serde_json::Value) -> Outcome {
 }
 
 pub fn main(args: &Args) -> i32 {
-    vkit::hang::start_monitor("C05", args.tier, args.seed, Duration::from_secs(20));
+    vkit::hang::start_monitor_inconclusive("C05", Duration::from_secs(20));
     if let Some(p) = &args.replay {
         let (_, sub, case) = vkit::load_replay(p);
         return vkit::replay_verdict("C05", p, &replay(&sub, case));
@@ -481,6 +547,10 @@ pub fn main(args: &Args) -> i32 {
     let mut ev = Evidence::new("C05", args, "exploration");
     ev.assume("single-threaded histories (concurrent interleavings are C03's business)");
     ev.assume("FIFO among equal priorities is asserted only where no overflow moved items (the documentation shows reordering across an overflow)");
+    ev.add(vkit::run_regress("C05", |sub, case| replay(sub, case)));
+    if ev.has_violations() {
+        return ev.finish();
+    }
     let mk = |sub: &'static str, rule: &'static str, cases: u32, shards: u32| RunCfg {
         property: "C05",
         sub,
